@@ -27,6 +27,10 @@ def c_sqrt(x):
 
 
 def c_pow(a, b):
+    # pow(x, <int>) compiles to LLVM's powi (repeated multiplication: pow(x, 2) is x * x); CPython calls libm's pow,
+    # which is not always correctly rounded and can differ from x * x in the last bit
+    if isinstance(b, (int, np.integer)) and not isinstance(b, bool) and isinstance(a, (float, np.floating)):
+        return static_pow(float(a), int(b))
     try:
         return pow(a, b)
     except OverflowError:
